@@ -200,6 +200,25 @@ def r5(ctx):
             res[name] = sorted(next(iter(f.values()))) if f else None
             ctx.check(name, ok, "every drawdown produced here is given to both the mean and the max generator of the same tear sheet",
                       got={k: sorted(v) for k, v in f.items()}, want=sorted(want), key="feeds-both")
+    # the reported mean / max are read AFTER the in-progress drawdown has been folded in, and on every path
+    for adt, prefix in ((TS, "self.pnl_"), (TA, "self.")):
+        gb = ctx.fibody(name="generate", self_adt=adt, trait="")
+        name = "%s::generate" % mir.short(adt).split("::")[-1]
+        true = frozenset([frozenset()])
+        for gen, upd, fld in (("MaxDrawdownGenerator", "MaxDrawdownGenerator::update", "drawdown_max"),
+                              ("MeanDrawdownGenerator", "MeanDrawdownGenerator::update", "drawdown_mean")):
+            reads = [blk["i"] for blk in gb.blocks if not blk.get("cleanup") and blk["i"] in gb.reachable and blk["term"]["t"] == "call" and
+                     "def" in blk["term"]["f"] and blk["term"]["f"]["def"].endswith(gen + "::generate")]
+            ups = [bi for bi, t, tm in gb.real_calls() if mir.short(tm[1]) == upd and render(tm[2][0]) == prefix + fld]
+            ok = len(reads) == 1 and len(ups) == 1 and gb.guard(reads[0]) == true and reads[0] in gb.reach_from(ups[0]) and \
+                ups[0] not in gb.reach_from(reads[0])
+            rt = gb.return_term()
+            fl = dict(zip(rt[2], rt[3])) if rt[0] == "agg" else {}
+            key = ("pnl_" if adt == TS else "") + fld
+            ok = ok and render(fl.get(key, ("none",))) in (prefix + fld + ".max", prefix + fld + ".mean_drawdown")
+            ctx.check(name, ok, "the reported %s is generated unconditionally and only AFTER the in-progress drawdown was folded into it "
+                      "(a copy taken earlier is stale)" % fld, got={"generate blocks": reads, "update blocks": ups, "field": render(fl.get(key, ("none",)))[:80]},
+                      key="after-fold:" + fld)
     # what feeds the drawdown generator
     b = ctx.fibody(name="update_from_position", self_adt=TS, trait="")
     u = [tm for bi, t, tm in b.real_calls() if mir.short(tm[1]) == "DrawdownGenerator::update"]
